@@ -308,8 +308,15 @@ std::vector<double> Linear_Space(double min, double max, unsigned int steps)
 	{
 		std::vector<double> result;
 		double step = (max - min) / (steps - 1.0);
-		for(unsigned int i = 0; i < steps; i++)
-			result.push_back(min + i * step);
+		if(std::isfinite(step))
+			for(unsigned int i = 0; i < steps; i++)
+				result.push_back(min + i * step);
+		else   // max - min exceeds the largest double: interpolate between the end points instead.
+			for(unsigned int i = 0; i < steps; i++)
+			{
+				double t = i / (steps - 1.0);
+				result.push_back((1.0 - t) * min + t * max);
+			}
 		return result;
 	}
 }
